@@ -40,7 +40,21 @@ DS = el(8, 0x52, b"PATIENT") + el(0x10, 0x10, b"X")
 STORE_DS = el(8, 0x16, C.CT.encode() + b"\x00") + el(8, 0x18, b"1.2.3.4.5\x00") + el(0x10, 0x10, b"NAME")
 
 
-def request_bytes(kind, ctx, msg_id=7):
+def request_bytes(kind, ctx, msg_id=7, data_ctx=None):
+    """The request as P-DATA-TF PDUs on context `ctx`; with `data_ctx` the data-set PDVs travel under that (accepted)
+    context ID instead - the message still belongs to the context of its command set."""
+    b = _request_bytes(kind, ctx, msg_id)
+    if data_ctx is None:
+        return b
+    pdus, _rest = W.frame(b)
+    out = b""
+    for _t, payload, _off in pdus:
+        pdvs = [(data_ctx if not is_cmd else c, is_cmd, last, data) for c, is_cmd, last, data in W.parse_pdata(payload)]
+        out += W.pdata(pdvs)
+    return out
+
+
+def _request_bytes(kind, ctx, msg_id=7):
     inst = "1.2.840.10008.5.1.1.17"
     if kind == "echo":
         return b"".join(W.fragment(ctx, W.rq("C-ECHO-RQ", msg_id, C.VERIFICATION), None))
@@ -67,8 +81,14 @@ def request_bytes(kind, ctx, msg_id=7):
     raise ValueError(kind)
 
 
-def _mk(role, kind, x, sched=None, net=None):
-    return {"role": role, "kind": kind, "ctx": x, "sched": sched or {"switch_pct": 20}, "net": net or {"seg": "whole"}}
+def _mk(role, kind, x, sched=None, net=None, data_home=False):
+    d = {"role": role, "kind": kind, "ctx": x, "sched": sched or {"switch_pct": 20}, "net": net or {"seg": "whole"}}
+    if data_home:
+        d["data_home"] = True     # the data-set PDVs travel under the accepted context of the request's SOP class
+    return d
+
+
+HAS_DATASET = ("store", "find", "get", "move", "n_event_report", "n_set", "n_action", "n_create")
 
 
 def directed(tier):
@@ -79,6 +99,12 @@ def directed(tier):
             out.append(_mk("acceptor", kind, x))
     for x in ids:
         out.append(_mk("requestor", "store", x))
+    # command set on an unaccepted context, data set on the accepted context of that SOP class
+    for kind in HAS_DATASET:
+        for x in (0, 2, 15, 17, 255) + ((HOME[kind] + 2,) if HOME[kind] + 2 != 15 else ()):
+            out.append(_mk("acceptor", kind, x, data_home=True))
+    for x in (0, 2, 5, 255):
+        out.append(_mk("requestor", "store", x, data_home=True))
     return out
 
 
@@ -91,7 +117,8 @@ def budget(tier):
 def gen(rng, idx, tier):
     role = "requestor" if rng.randrange(6) == 0 else "acceptor"
     kind = "store" if role == "requestor" else rng.choice(REQS)
-    return _mk(role, kind, rng.choice(QUICK_IDS + [rng.randrange(256)]), sched=C.gen_sched(rng), net=C.gen_net(rng))
+    return _mk(role, kind, rng.choice(QUICK_IDS + [rng.randrange(256)]), sched=C.gen_sched(rng), net=C.gen_net(rng),
+               data_home=kind in HAS_DATASET and rng.randrange(3) == 0)
 
 
 def shrink(sc):
@@ -143,7 +170,7 @@ def execute(sc, ctx):
         if not isinstance(ac, dict):
             return
         ctx.obs["accepted"] = sorted(x["id"] for x in ac["results"] if x["result"] == 0)
-        p.send(request_bytes(sc["kind"], sc["ctx"]))
+        p.send(request_bytes(sc["kind"], sc["ctx"], data_ctx=HOME[sc["kind"]] if sc.get("data_home") else None))
         ctx.obs["peer_saw"] = p.drain(0.5)
         ctx.obs["peer_pdus"] = [t for t, _ in p.received]
         p.close()
@@ -171,7 +198,8 @@ def execute(sc, ctx):
             if isinstance(got, str):
                 return
             p.recv_pdu(0.05)
-            p.send(request_bytes("store", sc["ctx"]))
+            ct_id = next((i for i, res, _ in results if res == 0 and any(pc["id"] == i and pc["abstract"][0].decode() == C.CT for pc in d["pcs"])), None)
+            p.send(request_bytes("store", sc["ctx"], data_ctx=ct_id if sc.get("data_home") else None))
             ctx.obs["peer_saw"] = p.drain(0.4)
             ctx.obs["peer_pdus"] = [t for t, _ in p.received]
             p.close()
